@@ -92,6 +92,15 @@ class ScriptAddon:
             raise ValueError("scripted failure")
         return None
 
+    def handle_rlv_command(self, session, region, source, behaviour, options, param):
+        self.sc.log.append(("rlv", self.idx, 1))
+        beh = self.sc.cfg["rlv"][self.idx - 1]
+        if beh == "truthy":
+            return True
+        if beh == "raise":
+            raise ValueError("scripted failure")
+        return None
+
     def handle_lludp_message(self, session, region, message):
         if message.name == "PacketAck" or message.synthetic:
             return None
@@ -119,6 +128,12 @@ def _first_message(cfg):
     flags = PacketFlags.RELIABLE if cfg["rel"] else PacketFlags(0)
     if cfg["kind"] == "plain":
         return Message("CompletePingCheck", Block("PingID", PingID=1), packet_id=1, flags=flags, direction=d)
+    if cfg["kind"] == "rlv":
+        from hippolyzer.lib.base.datatypes import Vector3
+        return Message("ChatFromSimulator",
+                       Block("ChatData", FromName="obj", SourceID=UUID(int=9), OwnerID=UUID(int=3), SourceType=2,
+                             ChatType=8, Audible=1, Position=Vector3(1, 2, 3), Message="@detach=n"),
+                       packet_id=1, flags=flags, direction=d)
     return Message("ChatFromViewer",
                    Block("AgentData", AgentID=UUID(int=3), SessionID=UUID(int=1)),
                    Block("ChatData", Message="nosuchcommand", Type=1, Channel=524),
@@ -256,7 +271,7 @@ def _replay(idx):
 def _table(chk: Check, n, pktb, udpb, subb, kinds, label):
     global _ROWS
     fmt = lambda s: "{" + ", ".join('"%s"' % x for x in s) + "}"
-    cfg = ("SPECIFICATION Spec\nCONSTANTS N = %d\n PktB = %s\n UdpB = %s\n SubB = %s\n Kinds = %s\n%s" % (
+    cfg = ("SPECIFICATION Spec\nCONSTANTS N = %d\n PktB = %s\n UdpB = %s\n SubB = %s\n RlvB = {\"falsy\", \"truthy\", \"raise\"}\n Kinds = %s\n%s" % (
         n, fmt(pktb), fmt(udpb), fmt(subb), fmt(kinds), "".join("INVARIANT %s\n" % i for i in INVS)))
     common.model_check(chk, "AddonDispatch", cfg, "AddonDispatch " + label)
     rows = common.export_records(chk, "AddonDispatch_MBT", cfg.replace("".join("INVARIANT %s\n" % i for i in INVS), "")
@@ -293,10 +308,12 @@ def run(chk: Check):
                         "emissions are classified by content marker (copy marked 101/'copy', mutation 55/'mutated')"]
     if chk.tier == "quick":
         _table(chk, 2, ["falsy", "truthy", "raise"], CORE_UDP, ["none", "raise", "take"], ["plain", "cmdchat"], "n2-core")
+        _table(chk, 2, ["falsy", "raise"], ["falsy", "truthy", "take", "drop"], ["none", "take"], ["rlv"], "n2-rlv")
         _table(chk, 1, ["falsy"], ALL_UDP, ["none", "falsy", "raise", "predraise", "take", "takesend", "drop", "send"], ["plain"], "n1-all")
     else:
         _table(chk, 2, ["falsy", "truthy", "raise"], ALL_UDP, ["none", "raise", "predraise", "take", "takesend"], ["plain", "cmdchat"], "n2-all")
         _table(chk, 3, ["falsy", "truthy", "raise"], ["falsy", "truthy", "raise", "take", "drop", "send"], ["none", "take"], ["plain"], "n3-core")
+        _table(chk, 2, ["falsy", "truthy", "raise"], CORE_UDP, ["none", "raise", "take"], ["rlv"], "n2-rlv")
     chk.cov["exhaustive"] = True
 
 
